@@ -1,6 +1,8 @@
 import Drivers.Wire
 import Model.Evaluator
 import Model.EvaluatorTrace
+import Model.EvaluatorMulti
+import Model.EvaluatorMultiTrace
 
 /-!
 Driver for C01 (stateful, one session at a time; `init` starts a new evaluator).
@@ -23,6 +25,16 @@ requests
 reply
   {"ok":true,"env_ok":bool,"out":{"kind":..,"jobs":[..],"err":..},
    "num_submitted":n,"num_gathered":n,"jobs_done":[id..],"statuses":[..],"other":[id..]}
+
+several evaluators on ONE storage search (`Model/EvaluatorMulti.lean`); job ids are the storage's
+  {"op":"minit","hpo":bool,"n":N,"out_truthy_always":bool}   a new search with N evaluators attached
+  {"op":"mstep","who":i,"call":{"op":"submit"|"gather"|"close"|"dump"|"setmax",..}}   ("setmax": "n":int)
+        -> {"ok":true,"env_ok":bool,"out":{"kind":"unit"|"jobs"|"rows"|"error"|"spawnmax","jobs":[..],"other":[..],
+            "err":..,"created":k},"num_submitted":int,"num_gathered":int,"jobs_done":[job..],
+            "statuses":[status of every job of the search..],"own":[ids of evaluator i's jobs..]}
+  {"op":"mcheck","hpo":bool,"n":N,"trace":[{"who":i,"call":..,"res":{"kind":..,"jobs":[..],"other":[..]},
+                                            "num_submitted":int,"num_gathered":int,"jobs_done":[job..]}..]}
+        -> {"ok":true,"spec":bool,"first_bad":i|null,"clause":str|null}    (`checkMTrace`, theorem C01_multi_checker)
 -/
 
 open Lean DH.Wire DH.Evaluator
@@ -31,6 +43,8 @@ structure Cfg where
   x : Int
   tag : String
   fail : Bool
+  /-- the run-function returns the objective `0.0` (falsy as a stored output) -/
+  zero : Bool
   /-- canonical text of the nested (mutable) values of the configuration, and the sum of their integers -/
   nest : String
   w : Int
@@ -42,20 +56,37 @@ inductive OutV
   deriving DecidableEq, Repr
 
 def runF (c : Cfg) : OutV :=
-  if c.fail then .fstr ("F_" ++ c.tag) else .obj (3 * (c.x : Rat) + 1 / 2 + 16 * (c.w : Rat))
+  if c.fail then .fstr ("F_" ++ c.tag) else if c.zero then .obj 0
+  else .obj (3 * (c.x : Rat) + 1 / 2 + 16 * (c.w : Rat))
 
 def mkParams (hpo : Bool) : Params Cfg OutV :=
   { f := runF, hpo := hpo, cancelOut := .fstr "F_CANCELLED",
     isStr := fun o => match o with | .fstr _ => true | .obj _ => false }
+
+/-- `always = false`: `if job_data["out"]` (a stored objective 0.0 or "" is falsy — the pinned tree);
+`always = true`: `if job_data["out"] is not None`.  Which one the tree under test implements is observed
+by the harness with a one-job probe (the model and its theorems are parametric in `truthy`). -/
+def mkMParams (hpo : Bool) (always : Bool := false) : MParams Cfg OutV :=
+  { toParams := mkParams hpo,
+    truthy := fun o => always || (match o with | .fstr s => s != "" | .obj q => q != 0) }
 
 structure Sess where
   hpo : Bool
   pre : Bool
   ev : Ev Cfg OutV
 
+structure MSess where
+  hpo : Bool
+  always : Bool
+  sys : Sys Cfg OutV
+
+structure St where
+  single : Option Sess := none
+  multi : Option MSess := none
+
 def jCfg (j : Json) : Except String Cfg := do
   return { x := ← jInt (← field j "x"), tag := ← jStr (← field j "tag"), fail := ← jBool (← field j "fail"),
-           nest := ← jStr (fieldD j "nest" (Json.str "{}")), w := ← jInt (fieldD j "w" (Json.num 0)) }
+           zero := ← jBool (fieldD j "zero" (Json.bool false)), nest := ← jStr (fieldD j "nest" (Json.str "{}")), w := ← jInt (fieldD j "w" (Json.num 0)) }
 
 def statusStr : Status → String
   | .ready => "READY" | .running => "RUNNING" | .done => "DONE" | .cancelled => "CANCELLED"
@@ -71,7 +102,7 @@ def ofOutV : Option OutV → Json
 
 def ofJob (j : JobRec Cfg OutV) : Json :=
   Json.mkObj [("id", Json.num (JsonNumber.fromNat j.id)), ("x", Json.num (JsonNumber.fromInt j.cfg.x)),
-    ("tag", j.cfg.tag), ("fail", j.cfg.fail), ("nest", j.cfg.nest), ("w", Json.num (JsonNumber.fromInt j.cfg.w)),
+    ("tag", j.cfg.tag), ("fail", j.cfg.fail), ("zero", j.cfg.zero), ("nest", j.cfg.nest), ("w", Json.num (JsonNumber.fromInt j.cfg.w)),
     ("out", ofOutV j.out), ("status", statusStr j.status)]
 
 def ofOut : Out Cfg OutV → Json
@@ -177,15 +208,147 @@ def handleCheck (j : Json) : Except String Json := do
     return Json.mkObj [("ok", true), ("spec", spec), ("first_bad", Json.num (JsonNumber.fromNat i)),
       ("clause", diagnose p a st)]
 
-def handle (s : Option Sess) (j : Json) : Except String (Option Sess × Json) := do
+/-! ### several evaluators on one storage search -/
+
+def ofMOut : MOut Cfg OutV → Json
+  | .unit => Json.mkObj [("kind", "unit")]
+  | .jobs l o => Json.mkObj [("kind", "jobs"), ("jobs", Json.arr (l.map ofJob).toArray),
+      ("other", Json.arr (o.map ofJob).toArray)]
+  | .rows l => Json.mkObj [("kind", "rows"), ("jobs", Json.arr (l.map ofJob).toArray)]
+  | .error e => Json.mkObj [("kind", "error"), ("err", errStr e)]
+  | .spawnMax k => Json.mkObj [("kind", "spawnmax"), ("created", Json.num (JsonNumber.fromNat k))]
+
+def parseMOp (j : Json) : Except String (MOp Cfg) := do
+  let op ← (← field j "op").getStr?
+  match op with
+  | "submit" => return .submit (← jList jCfg (← field j "cfgs"))
+  | "gather" =>
+    return .gather (← jBool (← field j "all")) (← jNat (← field j "k"))
+      (← jList jNat (← field j "started")) (← jList (jList jNat) (← field j "waits"))
+  | "close" => return .close (← jList jNat (← field j "finished"))
+  | "dump" => return .dump (← jBool (← field j "flush"))
+  | "setmax" => return .setMax (← jInt (← field j "n"))
+  | _ => throw s!"unknown op {op}"
+
+def jMTStep (j : Json) : Except String (MTStep Cfg OutV) := do
+  let c ← field j "call"
+  let op ← match (← jStr (← field c "op")) with
+    | "submit" => pure (MTOp.submit (← jList jCfg (← field c "cfgs")))
+    | "gather" => pure (MTOp.gather (← jBool (← field c "all")) (← jNat (← field c "k")))
+    | "close" => pure MTOp.close
+    | "dump" => pure MTOp.dump
+    | "setmax" => pure (MTOp.setMax (← jInt (← field c "n")))
+    | o => throw s!"bad call {o}"
+  let r ← field j "res"
+  let res ← match (← jStr (← field r "kind")) with
+    | "unit" => pure MTRes.unit
+    | "jobs" => pure (MTRes.jobs (← jList jJob (← field r "jobs")) (← jList jJob (fieldD r "other" (Json.arr #[]))))
+    | "rows" => pure (MTRes.rows (← jList jNat (← field r "ids")))
+    | "spawnmax" => pure MTRes.spawnMax
+    | "error" => match (← jStr (← field r "err")) with
+      | "noLoop" => pure (MTRes.error .noLoop)
+      | "noJobs" => pure (MTRes.error .noJobs)
+      | _ => pure (MTRes.error .other)
+    | _ => pure (MTRes.error .other)
+  return { who := ← jNat (← field j "who"), op, res, numSubmitted := ← jInt (← field j "num_submitted"),
+           numGathered := ← jInt (← field j "num_gathered"), jobsDone := ← jList jJob (← field j "jobs_done") }
+
+/-- which conjunct of `MStepOk` fails first (a reporting aid; the verdict is `checkMTrace`) -/
+def diagnoseM (p : MParams Cfg OutV) (a : MAcc Cfg OutV) (st : MTStep Cfg OutV) : String :=
+  let e := a.ev st.who
+  let a' := mNextAcc a st
+  let e' := a'.ev st.who
+  let counters :=
+    if st.numSubmitted != (a'.cfgs.length : Int) - e'.offset then "count-submitted"
+    else if st.numGathered != ((e'.delivered.length + e'.reported.length : Nat) : Int) - e'.offset then "count-gathered"
+    else "?"
+  if st.who ≥ a.evs.length then "no-such-evaluator" else
+  match st.op, st.res with
+  | _, .error .other => "no-exception"
+  | .submit _, .unit => if decide (MCallOk p a st) then counters
+      else if st.jobsDone.map (·.id) != e.pending then "jobs-done" else "cap"
+  | .submit _, .spawnMax => if decide (MCallOk p a st) then counters
+      else if st.jobsDone.map (·.id) != e.pending then "jobs-done" else "cap"
+  | .setMax _, .unit => if decide (MCallOk p a st) then counters else "jobs-done"
+  | .gather all k, .jobs js others =>
+    if !decide (js.map (·.id)).Nodup || js.any (fun j => (e.delivered.map (·.1)).contains j.id) then "twice"
+    else if js.any (fun j => a.cfgs[j.id]? == none) then "unknown-job"
+    else if js.any (fun j => a.owners[j.id]? != some st.who) then "not-owner"
+    else if js.any (fun j => a.cfgs[j.id]? != some j.cfg) then "payload-config"
+    else if js.any (fun j => j.out != some (p.f j.cfg)) then "payload-output"
+    else if js.any (fun j => j.status != .done) then "payload-status"
+    else if !decide (min (if all then a.inflight st.who else k) (a.inflight st.who) ≤ js.length) then "batch-size"
+    else if all && js.length != a.inflight st.who then "all-leaves-running"
+    else if !decide (others.map (·.id)).Nodup || others.any (fun o => e.reported.contains o.id) then "other-twice"
+    else if others.any (fun o => a.owners[o.id]? == some st.who) then "other-own"
+    else if others.any (fun o => !((a.foreignRecs st.who).map (·.id)).contains o.id) then "other-early"
+    else if others.any (fun o => !(a.foreignRecs st.who).contains o || a.cfgs[o.id]? != some o.cfg) then "other-payload"
+    else if others.any (fun o => !decide (ReportedOk p a st.who o)) then "other-unexpected"
+    else if !decide (ReportsAll p a st.who others) then "other-missing"
+    else if !decide (MCallOk p a st) then "jobs-done"
+    else counters
+  | .gather _ _, .error _ => if decide (MCallOk p a st) then counters else "no-exception"
+  | .close, .unit =>
+    let new := st.jobsDone.drop e.pending.length
+    if !decide (new.map (·.id)).Nodup || new.any (fun j => (e.delivered.map (·.1)).contains j.id) then "both"
+    else if new.any (fun j => a.cfgs[j.id]? == none) then "unknown-job"
+    else if new.any (fun j => a.owners[j.id]? != some st.who) then "not-owner"
+    else if new.any (fun j => a.cfgs[j.id]? != some j.cfg) then "payload-config"
+    else if new.any (fun j => !decide (MClosedOk p a st.who j)) then "close-record"
+    else if new.length != a.inflight st.who then "lost"
+    else if !decide (MCallOk p a st) then "jobs-done"
+    else counters
+  | .dump, .rows _ => if decide (MCallOk p a st) then counters else "dump-once"
+  | _, _ => "no-exception"
+
+def handleMCheck (j : Json) : Except String Json := do
+  let hpo ← jBool (← field j "hpo")
+  let n ← jNat (← field j "n")
+  let t ← jList jMTStep (← field j "trace")
+  let p := mkMParams hpo (← jBool (fieldD j "out_truthy_always" (Json.bool false)))
+  let spec := checkMTrace p n t
+  match mFirstBad p (MAcc.init n) 0 t with
+  | none => return Json.mkObj [("ok", true), ("spec", spec), ("first_bad", Json.null), ("clause", Json.null)]
+  | some (i, a, st) =>
+    return Json.mkObj [("ok", true), ("spec", spec), ("first_bad", Json.num (JsonNumber.fromNat i)),
+      ("clause", diagnoseM p a st)]
+
+def handleMStep (se : MSess) (j : Json) : Except String (MSess × Json) := do
+  let who ← jNat (← field j "who")
+  let o ← parseMOp (← field j "call")
+  let p := mkMParams se.hpo se.always
+  let r := mStep p se.sys who o
+  let me := r.1.evs.getD who MEv.init
+  let rep := Json.mkObj [("ok", true), ("env_ok", mOpOk se.sys who o), ("out", ofMOut r.2),
+    ("num_submitted", Json.num (JsonNumber.fromInt (mNumSubmitted r.1.rows me))),
+    ("num_gathered", Json.num (JsonNumber.fromInt (mNumGathered me))),
+    ("jobs_done", Json.arr ((doneRecs r.1.rows me).map ofJob).toArray),
+    ("statuses", Json.arr (r.1.rows.map (fun r => Json.str (statusStr r.status))).toArray),
+    ("own", ofNats me.jobs)]
+  return ({ se with sys := r.1 }, rep)
+
+def handle (s : St) (j : Json) : Except String (St × Json) := do
   let op ← (← field j "op").getStr?
   if op == "init" then
     let hpo ← jBool (← field j "hpo")
     let pre ← jBool (fieldD j "pre" (Json.bool false))
-    return (some { hpo, pre, ev := init }, Json.mkObj [("ok", true)])
+    return ({ s with single := some { hpo, pre, ev := init } }, Json.mkObj [("ok", true)])
   if op == "check" then
     return (s, ← handleCheck j)
-  match s with
+  if op == "minit" then
+    let hpo ← jBool (← field j "hpo")
+    let n ← jNat (← field j "n")
+    let always ← jBool (fieldD j "out_truthy_always" (Json.bool false))
+    return ({ s with multi := some { hpo, always, sys := Sys.init n } }, Json.mkObj [("ok", true)])
+  if op == "mcheck" then
+    return (s, ← handleMCheck j)
+  if op == "mstep" then
+    match s.multi with
+    | none => throw "no multi session: send minit first"
+    | some se =>
+      let (se', rep) ← handleMStep se j
+      return ({ s with multi := some se' }, rep)
+  match s.single with
   | none => throw "no session: send init first"
   | some se =>
     let p := mkParams se.hpo
@@ -200,10 +363,10 @@ def handle (s : Option Sess) (j : Json) : Except String (Option Sess × Json) :=
       ("statuses", Json.arr (ev'.jobs.map (fun j => Json.str (statusStr j.status))).toArray),
       ("running", ofNats (runningIds ev')),
       ("other", ofNats (otherIds ev'))]
-    return (some { se with ev := ev' }, rep)
+    return ({ s with single := some { se with ev := ev' } }, rep)
 
 def main : IO Unit :=
-  serve (fun (s : Option Sess) j =>
+  serve (fun (s : St) j =>
     match handle s j with
     | .ok (s', r) => (s', r)
-    | .error e => (s, errReply e)) none
+    | .error e => (s, errReply e)) {}
